@@ -44,6 +44,12 @@ type xUnit struct {
 	// Ignore: statements (by printed text) that are left out: lock handling (`r.RLock()`, `defer r.RUnlock()`): the
 	// translation is of the sequential body; that it runs atomically is the model's assumption.
 	Ignore []string
+	// Funcs: pure functions the code calls through values outside the subset (an interface method such as
+	// t.server.protocol.ParsePackage): callee text -> a function parameter of the given Gallina type, applied to the
+	// translated arguments; several results are a tuple
+	Funcs map[string]xOracle
+	// Deep: the statement slice From..To is looked for in nested statement lists as well (it must be unique)
+	Deep bool
 	// Methods: pure methods without arguments of values of the subset (e.String()) that the code calls: each becomes a
 	// function parameter of the given Gallina type, applied to the translated receiver
 	Methods map[string]xOracle
@@ -67,7 +73,16 @@ type xOracle struct{ Name, Type string }
 type xWriter struct {
 	Prims map[string]xPrim  // primitive appends: GoSem function of the selected arguments; they return a nil error
 	Calls map[string]string // methods translated as units of their own: callee text -> Coq name
+	Type  string            // Gallina type of what is accumulated ("list N" when empty: the bytes written)
 }
+
+func (w *xWriter) typ() string {
+	if w.Type != "" {
+		return w.Type
+	}
+	return "list N"
+}
+
 type xPrim struct {
 	Coq  string
 	Args []int
@@ -107,6 +122,7 @@ type xl struct {
 	isParam    map[*types.Var]bool
 	paramNames []string     // Gallina names of the unit's parameters after fuel, in order (rd last)
 	namedRes   []*types.Var // named results (variables; a bare return yields them)
+	loopCont   bool         // the enclosing `for { }` is a go_loop: continue is the next round
 	inLoop     bool         // inside the `for { }` of a fuel unit
 	loopState  string
 	freshDone  map[*types.Var]bool
@@ -118,7 +134,7 @@ type xl struct {
 
 // identifiers the generated text uses itself; a Go variable of such a name gets a trailing underscore
 var xReserved = strings.Fields(`ctl Next Return Panic bindc go_call wrapU wrapS go_len go_nth go_in_range go_slice
- go_slice_ok go_bytes_eqb go_be_u16 go_be_u32 go_be_u64 go_emit_u8 go_emit_u16 go_emit_u32 go_emit_u64 go_emit_bytes go_range go_count go_map_get go_map_set go_make go_iter rd fuel inl inr go_atomic_cas32 go_atomic_add32 go_search go_search_ok Some None go_f32_to_f64 go_bytes_ltb go_sort_by go_count_down a__ b__
+ go_slice_ok go_bytes_eqb go_be_u16 go_be_u32 go_be_u64 go_emit_u8 go_emit_u16 go_emit_u32 go_emit_u64 go_emit_bytes go_range go_count go_map_get go_map_set go_make go_iter rd fuel inl inr go_atomic_cas32 go_atomic_add32 go_search go_search_ok Some None go_f32_to_f64 go_bytes_ltb go_sort_by go_count_down a__ b__ go_loop go_copy go_deliver
  andb orb negb implb true false tt nil cons list unit bool Z N nat fst snd pair Bool eqb
  fun let in if then else match with end as return forall exists fix cofix Type Prop Set struct where at using for IF
  Definition Fixpoint Record Lemma Theorem out st`)
@@ -732,6 +748,13 @@ func (x *xl) call(e *ast.CallExpr, g *xGuards) string {
 	if x.unit.Errs[x.src(e.Fun)] { // an error value that is not nil; its text is not modelled
 		return "true"
 	}
+	if f, ok := x.unit.Funcs[x.src(e.Fun)]; ok { // a declared pure function: a function parameter
+		as := []string{f.Name}
+		for _, a := range e.Args {
+			as = append(as, x.expr(a, g))
+		}
+		return "(" + strings.Join(as, " ") + ")"
+	}
 	if se, ok := e.Fun.(*ast.SelectorExpr); ok && len(e.Args) == 0 {
 		if m, ok := x.unit.Methods[se.Sel.Name]; ok { // a declared pure method: a function parameter
 			if _, isFn := x.info.ObjectOf(se.Sel).(*types.Func); isFn {
@@ -966,6 +989,10 @@ func (x *xl) fresh(v *types.Var, at ast.Node) {
 			}
 			x.fresh(w, at)
 			return true
+		case *ast.SliceExpr: // v = v[lo:hi]: no other slice comes to share the array
+			if id, isId := r.X.(*ast.Ident); isId && x.info.ObjectOf(id) == types.Object(v) && !r.Slice3 {
+				return true
+			}
 		case *ast.CallExpr:
 			if id, isId := r.Fun.(*ast.Ident); isId && len(r.Args) > 0 {
 				if a0, isId := r.Args[0].(*ast.Ident); id.Name == "append" && isId && x.info.ObjectOf(a0) == v {
@@ -1087,7 +1114,7 @@ func (x *xl) assigned(ss []ast.Stmt) []*types.Var {
 func (x *xl) state(n ast.Node, vs []*types.Var) (term, typ, bind string) {
 	var ns, ts []string
 	if x.unit.Writer != nil {
-		ns, ts = append(ns, "out"), append(ts, "(list N)")
+		ns, ts = append(ns, "out"), append(ts, "("+x.unit.Writer.typ()+")")
 	}
 	if x.unit.State != nil {
 		ns, ts = append(ns, "rd"), append(ts, x.unit.State.Type)
@@ -1159,7 +1186,7 @@ func (x *xl) ret(vals []string) string {
 		v = "(" + strings.Join(vals, ", ") + ")"
 	}
 	if x.unit.Writer != nil {
-		return "Return (out, " + v + ")"
+		v = "(out, " + v + ")"
 	}
 	if x.unit.State != nil { // the state, the pointees of the pointer parameters, the results
 		all := []string{"rd"}
@@ -1253,6 +1280,12 @@ func (x *xl) stmt(s ast.Stmt, rest func() string, d int) string {
 		}
 		return xGuarded(g, x.ret(vs))
 	case *ast.BranchStmt:
+		if s.Tok == token.BREAK && s.Label == nil && x.inLoop && x.loopCont { // go_loop: break / continue / return are told apart
+			return "Return (inl (inl " + x.loopState + "))"
+		}
+		if s.Tok == token.CONTINUE && s.Label == nil && x.inLoop && x.loopCont {
+			return "Return (inl (inr " + x.loopState + "))"
+		}
 		if s.Tok == token.BREAK && s.Label == nil && x.inLoop {
 			return "Return (inl " + x.loopState + ")"
 		}
@@ -1290,6 +1323,17 @@ func (x *xl) stmt(s ast.Stmt, rest func() string, d int) string {
 		if inv := x.stCall(s.X, &g); inv != nil {
 			return x.stBind(s, inv, nil, false, g, rest, d)
 		}
+		if c, ok := s.X.(*ast.CallExpr); ok && x.src(c.Fun) == "copy" && len(c.Args) == 2 { // copy(v, s) into a variable that shares its array with nothing
+			if id, isId := c.Args[0].(*ast.Ident); isId {
+				if _, isB := x.info.ObjectOf(c.Fun.(*ast.Ident)).(*types.Builtin); isB {
+					lv := x.lvalue(id)
+					x.fresh(lv, s)
+					n := x.varName(id)
+					return xGuarded(g, "let "+n+" := go_copy "+n+" "+x.expr(c.Args[1], &g)+" in"+xInd(d)+rest())
+				}
+			}
+			x.fail(s, "copy is in the subset only as the statement copy(v, s) on a variable v")
+		}
 		if c, ok := s.X.(*ast.CallExpr); ok && x.src(c.Fun) == "sort.Slice" && len(c.Args) == 2 {
 			return x.sortSlice(s, c, rest, d)
 		}
@@ -1301,6 +1345,12 @@ func (x *xl) stmt(s ast.Stmt, rest func() string, d int) string {
 			}
 		}
 		x.fail(s, "expression statement %s is outside the subset", x.src(s))
+	case *ast.GoStmt: // go F(args) where F hands its argument over (a declared writer primitive): the hand-over is what is modelled
+		var g xGuards
+		if callee, prim, ok := x.writerCall(s.Call, &g); ok && prim != "" {
+			return x.effect(callee, prim, "_", g, rest(), d)
+		}
+		x.fail(s, "go statements are outside the subset")
 	case *ast.IncDecStmt:
 		if f, ok := x.stField(s.X); ok && f.Set != "" {
 			op := " + 1"
@@ -1395,6 +1445,30 @@ func (x *xl) assign(s *ast.AssignStmt, rest func() string, d int) string {
 			return xGuarded(g, "let rd := "+f.Set+" rd "+v+" in"+xInd(d)+rest())
 		}
 	}
+	if len(s.Rhs) == 1 && len(s.Lhs) > 1 { // a, b := F(args) for a declared pure function F
+		if c, ok := s.Rhs[0].(*ast.CallExpr); ok {
+			if _, isF := x.unit.Funcs[x.src(c.Fun)]; isF {
+				v := x.call(c, &g)
+				var ns []string
+				for _, l := range s.Lhs {
+					lv := x.lvalue(l)
+					switch {
+					case lv == nil:
+						ns = append(ns, "_")
+					case s.Tok == token.DEFINE:
+						ns = append(ns, x.declare(lv))
+					default:
+						n, ok := x.names[lv]
+						if !ok {
+							x.fail(l, "%s is not a variable of the translated code", x.src(l))
+						}
+						ns = append(ns, n)
+					}
+				}
+				return xGuarded(g, "let '("+strings.Join(ns, ", ")+") := "+v+" in"+xInd(d)+rest())
+			}
+		}
+	}
 	if len(s.Lhs) != len(s.Rhs) {
 		x.fail(s, "assignment from a multi-valued expression is outside the subset")
 	}
@@ -1404,11 +1478,17 @@ func (x *xl) assign(s *ast.AssignStmt, rest func() string, d int) string {
 				if _, isB := x.info.ObjectOf(id).(*types.Builtin); isB {
 					lv := x.lvalue(s.Lhs[0])
 					a0, isId := c.Args[0].(*ast.Ident)
-					if lv == nil || !isId || x.info.ObjectOf(a0) != lv || c.Ellipsis.IsValid() {
+					if lv == nil || !isId || x.info.ObjectOf(a0) != lv {
 						x.fail(s, "append is in the subset only as  v = append(v, e...)  on one variable")
 					}
 					x.fresh(lv, s)
 					n := x.varName(a0)
+					if c.Ellipsis.IsValid() { // v = append(v, s...): the elements of s are copied
+						if len(c.Args) != 2 {
+							x.fail(s, "append(v, s...) with more arguments")
+						}
+						return xGuarded(g, "let "+n+" := "+n+" ++ "+x.expr(c.Args[1], &g)+" in"+xInd(d)+rest())
+					}
 					var es []string
 					for _, a := range c.Args[1:] {
 						el := x.expr(a, &g)
@@ -1428,7 +1508,11 @@ func (x *xl) assign(s *ast.AssignStmt, rest func() string, d int) string {
 		var v string
 		switch s.Tok {
 		case token.ASSIGN, token.DEFINE:
-			v = x.expr(s.Rhs[i], &g)
+			if x.info.Types[s.Rhs[i]].IsNil() && lv != nil { // nil is the zero value of the variable's type
+				v = x.zero(s, lv.Type())
+			} else {
+				v = x.expr(s.Rhs[i], &g)
+			}
 		default: // x op= e  is  x = x op e  at the type of x
 			op, ok := map[token.Token]token.Token{token.ADD_ASSIGN: token.ADD, token.SUB_ASSIGN: token.SUB, token.MUL_ASSIGN: token.MUL,
 				token.QUO_ASSIGN: token.QUO, token.REM_ASSIGN: token.REM, token.AND_ASSIGN: token.AND, token.OR_ASSIGN: token.OR,
